@@ -107,6 +107,12 @@ type RunReq struct {
 	// in place to Args.Globals.
 	FirstGlobals    map[string][]string `json:"first_globals,omitempty"`
 	HasFirstGlobals bool                `json:"has_first_globals,omitempty"`
+	// FirstGens: the generators of that first pass, if other than Gens (a driver that runs different
+	// generator sets over one loaded context).
+	FirstGens []GenScript `json:"first_gens,omitempty"`
+	// SecondContext: the root of a copy of the module; a second context is created there BEFORE the
+	// reported one and executed (unrecorded) AFTER it has been created: two contexts alive at once.
+	SecondContext string `json:"second_context,omitempty"`
 	// RetrySameExecutor: if Execute fails, call Execute once more on the SAME executor (a caller's retry
 	// loop); the report then describes the second call, FirstExecErr holds the first error.
 	RetrySameExecutor bool `json:"retry_same_executor,omitempty"`
